@@ -183,7 +183,14 @@ where
     let mut is_eol = false;
 
     loop {
-        let src = reader.fill_buf()?;
+        // A spurious interrupt is not an error: retry, as `BufRead::read_until` does.
+        let src = loop {
+            match reader.fill_buf() {
+                Ok(src) => break src,
+                Err(e) if e.kind() == io::ErrorKind::Interrupted => continue,
+                Err(e) => return Err(e),
+            }
+        };
 
         if is_eol || src.is_empty() || src[0] == DEFINITION_PREFIX {
             break;
@@ -210,7 +217,14 @@ fn is_last_sequence_line<R>(reader: &mut R) -> io::Result<bool>
 where
     R: BufRead,
 {
-    let src = reader.fill_buf()?;
+    // A spurious interrupt is not an error: retry, as `BufRead::read_until` does.
+    let src = loop {
+        match reader.fill_buf() {
+            Ok(src) => break src,
+            Err(e) if e.kind() == io::ErrorKind::Interrupted => continue,
+            Err(e) => return Err(e),
+        }
+    };
     Ok(src.is_empty() || src[0] == DEFINITION_PREFIX)
 }
 
